@@ -198,4 +198,19 @@ CLAIMS = {
        'the command parser and XML rendering of vlib/panos.py; the assumed XML-API semantics (set merges, edit replaces) are from the PAN-OS '
        'documentation. F-C03-1 fixed (466f163); F-C03-2 (service-group members are only added) is a known finding.',
   technique='Coq theorems (rule-order convergence of the diffRules plan for all scripts in normal form; device frame; oracle soundness) + differential execution of the emitted commands on the Coq device semantics'),
+ 'C04': dict(
+  text='Strict Gallina object store of an NSX-T manager (gateway policies with rules, groups, services carrying the Netspoc prefix) and of the '
+       'REST calls drc emits (PUT creates or replaces, PATCH / DELETE / POST ?action=add|remove need the id, a referenced group or service '
+       'cannot be deleted, references to Netspoc ids must exist). Theorems: the oracle is equality of the per-policy multisets of rules with '
+       'groups expanded to address sets and services to their definitions; equalising a group by removing what the target does not have and '
+       'adding what is new is accepted and yields exactly the target address set for all old and new lists, as does the PATCH branch; requests '
+       'on groups and services leave the policies untouched and requests on policies and rules leave groups and services untouched. Tie and '
+       'search: for generated manager / target pairs the requests printed by the built drc are parsed, executed by the object store inside '
+       'Coq and judged by the oracle, including the absence of left-over Netspoc services and unused Netspoc groups; the rendered result is '
+       'compared a second time by drc (no change), and an empty request list is accepted only if the manager was already equivalent.',
+  design_ref='DESIGN.md section 4, C04',
+  note='Partial: rule diffing, group reuse (findGroupOnDevice / adaptGroup) and id uniquifying are decided by executing the real requests on the '
+       'model, not by a theorem. Trusted: Coq kernel; request parser and JSON rendering of vlib/nsx.py; the assumed REST semantics are from the '
+       'NSX-T Policy API documentation. The id-clash defect F-C03-1 was repaired for NSX in the same commit (466f163).',
+  technique='Coq theorems (oracle soundness, group equalisation converges for all address lists, frame of the request kinds) + differential execution of the emitted REST calls on the Coq object store'),
 }
